@@ -40,14 +40,14 @@ theorem vex3_xb_roundtrip (opcode reg vvvvv xb : BitVec 32)
   all_goals bv_decide
 
 /-- EVEX bytes followed by a memory ModRM -/
-theorem evexG_parsed (rule : Rule) (opcode reg vvvvv xb : BitVec 32) (pfx : List (BitVec 8)) (mb : BitVec 8) (sib : Option (BitVec 8)) (ds imm : List (BitVec 8))
+theorem evexG_parsed (rule : Rule) (opcode reg vvvvv xb aaa : BitVec 32) (z : Bool) (pfx : List (BitVec 8)) (mb : BitVec 8) (sib : Option (BitVec 8)) (ds imm : List (BitVec 8))
     (hpl : PfxList false pfx)
-    (hr : reg < 32#32) (hv : vvvvv < 32#32) (hb : xb < 32#32) (hxop : opcode &&& 0x800#32 = 0#32)
+    (hr : reg < 32#32) (hv : vvvvv < 32#32) (hb : xb < 32#32) (ha : aaa < 8#32) (hxop : opcode &&& 0x800#32 = 0#32)
     (R : VexRuleM rule imm.length) (hs : rule.space = 2) (A : RowAgree rule opcode true)
     (hmodne : bits mb 6 2 ≠ 3) (fsib : (bits mb 0 3 == 4) = sib.isSome) (hdl : ds.length = dispLen mb sib)
     (freg : bits mb 3 3 = ((reg + (vvvvv <<< 7)) &&& 7#32).toNat) :
-    ∃ p, parse true rule (pfx ++ (le32 (evexWord (xR opcode 0#32 reg vvvvv xb 0#32) opcode) ++ [opcode.truncate 8] ++ (mb :: (sib.toList ++ ds)) ++ imm)) = .ok p ∧
-      VexParsedM rule p mb pfx ∧
+    ∃ p, parse true rule (pfx ++ (le32 (evexWord (xR opcode 0#32 reg vvvvv xb aaa ||| zOpt z) opcode) ++ [opcode.truncate 8] ++ (mb :: (sib.toList ++ ds)) ++ imm)) = .ok p ∧
+      VexParsedM rule p mb pfx aaa.toNat z ∧
       regNum p.R' p.R (bits mb 3 3) = reg.toNat ∧
       regNum p.V' false p.vvvv = vvvvv.toNat ∧
       MemFields p pfx mb sib ds (xb.getLsbD 3) (xb.getLsbD 4) ∧
@@ -56,11 +56,17 @@ theorem evexG_parsed (rule : Rule) (opcode reg vvvvv xb : BitVec 32) (pfx : List
       p.imm = imm := by
   obtain ⟨hop, hmap, hpp, hw, hl⟩ := A
   have hs' : rule.space = 1 ∨ rule.space = 2 ∨ rule.space = 3 := Or.inr (Or.inl hs)
-  obtain ⟨-, e15, e14, e13, e12, e11, e8, e23, e19, e18, e16, e31, e29, e28, e27, e24⟩ :=
-    vex_evex_r_roundtrip opcode 0#32 reg vvvvv xb 0#32 hr hv hb (by decide) hxop (by decide)
-  have hb0 : (evexWord (xR opcode 0#32 reg vvvvv xb 0#32) opcode).truncate 8 = 0x62#8 := by
-    simp only [evexWord, xR, extractLLMMMMM, kLL_Mask, kMM_Mask, oEvex]; bv_decide
-  generalize hwdef : evexWord (xR opcode 0#32 reg vvvvv xb 0#32) opcode = w at *
+  obtain ⟨e0, e15, e14, e13, e12, e11, e8, e23, e19, e18, e16, e31', e29, e28, e27, e24⟩ :=
+    vex_evex_r_roundtrip opcode 0#32 reg vvvvv xb aaa hr hv hb ha hxop (by decide)
+  have hrel : evexWord (xR opcode 0#32 reg vvvvv xb aaa ||| zOpt z) opcode &&& 0x7FFFFFFF#32 =
+        evexWord (xR opcode 0#32 reg vvvvv xb aaa) opcode &&& 0x7FFFFFFF#32 ∧
+      (evexWord (xR opcode 0#32 reg vvvvv xb aaa ||| zOpt z) opcode).getLsbD 31 = z := by
+    cases z <;> simp only [zOpt, oZMask, evexWord, xR, extractLLMMMMM, kLL_Mask, kMM_Mask, oEvex, Bool.false_eq_true, ↓reduceIte] <;>
+      constructor <;> bv_decide
+  obtain ⟨hrel1, hrel2⟩ := hrel
+  generalize evexWord (xR opcode 0#32 reg vvvvv xb aaa) opcode = w0 at *
+  generalize hwdef : evexWord (xR opcode 0#32 reg vvvvv xb aaa ||| zOpt z) opcode = w at *
+  have hb0 : w.truncate 8 = 0x62#8 := by bv_decide
   have ho7 : (reg + (vvvvv <<< 7)) &&& 7#32 < 8#32 := by bv_decide
   simp only [le32, List.cons_append, List.nil_append, hb0, List.append_assoc]
   have hpl' : PfxList (rule.pp &&& 8 != 0) pfx := by rw [R.hpp8]; exact hpl
@@ -70,7 +76,7 @@ theorem evexG_parsed (rule : Rule) (opcode reg vvvvv xb : BitVec 32) (pfx : List
   simp only [List.append_assoc] at hparse
   refine ⟨_, hparse, ?P, ?hreg, ?hvv, ?hF, ?hN, rfl⟩
   case P =>
-    refine ⟨Or.inr (Or.inr (Or.inl rfl)), rfl, rfl, rfl, hmodne, ?_, ?_, ?_, ?_, ?_, by simp, ?_⟩
+    refine ⟨Or.inr (Or.inr (Or.inl rfl)), rfl, rfl, rfl, hmodne, ?_, ?_, ?_, ?_, ?_, by simp, ?_, ?_⟩
     · show (opcode.truncate 8 : BitVec 8).toNat = rule.opcode
       rw [hop]; exact toNat_eq_of_zext _ _ (by omega) (by bv_decide)
     · show bits _ 0 3 = rule.map
@@ -91,12 +97,15 @@ theorem evexG_parsed (rule : Rule) (opcode reg vvvvv xb : BitVec 32) (pfx : List
       · right; show bits _ 5 2 = rule.l; rw [h]; exact toNat_eq_of_zext _ _ (by omega) (by bv_decide)
     · intro _
       refine ⟨?_, ?_, ?_, ?_⟩
-      · exact congrArg BitVec.toNat (show BitVec.extractLsb' 0 3 _ = 0#3 by bv_decide)
-      · simp only [bit]; bv_decide
+      · show bits _ 0 3 = aaa.toNat
+        exact toNat_eq_of_zext _ _ (by omega) (by bv_decide)
+      · show bit _ 7 = z
+        rw [← hrel2]; simp only [bit]; bv_decide
       · simp only [bit]; bv_decide
       · show bits _ 0 3 < 8
         have := (BitVec.extractLsb' 0 3 (BitVec.truncate 8 (w >>> 8))).isLt
         exact this
+    · intro h; exact absurd rfl h
   case hreg =>
     rw [freg]
     have e3 : ((reg + (vvvvv <<< 7)) &&& 7#32).toNat = (((reg + (vvvvv <<< 7)) &&& 7#32).truncate 3 : BitVec 3).toNat := by
@@ -126,7 +135,7 @@ theorem vex3G_parsed (rule : Rule) (opcode reg vvvvv xb : BitVec 32) (pfx : List
     (hmodne : bits mb 6 2 ≠ 3) (fsib : (bits mb 0 3 == 4) = sib.isSome) (hdl : ds.length = dispLen mb sib)
     (freg : bits mb 3 3 = ((reg + (vvvvv <<< 7)) &&& 7#32).toNat) :
     ∃ p, parse true rule (pfx ++ (le32 (vex3Word (vexPrep (xR opcode 0#32 reg vvvvv xb 0#32) opcode 0#32) opcode) ++ (mb :: (sib.toList ++ ds)) ++ imm)) = .ok p ∧
-      VexParsedM rule p mb pfx ∧
+      VexParsedM rule p mb pfx 0 false ∧
       regNum p.R' p.R (bits mb 3 3) = reg.toNat ∧
       regNum p.V' false p.vvvv = vvvvv.toNat ∧
       MemFields p pfx mb sib ds (xb.getLsbD 3) (xb.getLsbD 4) ∧
@@ -147,7 +156,7 @@ theorem vex3G_parsed (rule : Rule) (opcode reg vvvvv xb : BitVec 32) (pfx : List
   simp only [List.append_assoc] at hparse
   refine ⟨_, hparse, ?P, ?hreg, ?hvv, ?hF, rfl, rfl⟩
   case P =>
-    refine ⟨Or.inr (Or.inl rfl), rfl, rfl, rfl, hmodne, ?_, ?_, ?_, ?_, ?_, ?_, by simp⟩
+    refine ⟨Or.inr (Or.inl rfl), rfl, rfl, rfl, hmodne, ?_, ?_, ?_, ?_, ?_, ?_, by simp, ?_⟩
     · show (BitVec.truncate 8 (w >>> 24)).toNat = rule.opcode
       rw [hop]; exact toNat_eq_of_zext _ _ (by omega) (by bv_decide)
     · show bits _ 0 5 = rule.map
@@ -170,6 +179,7 @@ theorem vex3G_parsed (rule : Rule) (opcode reg vvvvv xb : BitVec 32) (pfx : List
       show bits _ 2 1 ≤ 1
       have := (BitVec.extractLsb' 2 1 (BitVec.truncate 8 (w >>> 16))).isLt
       simp only [bits]; omega
+    · intro _; exact ⟨rfl, rfl⟩
   case hreg =>
     rw [freg]
     have e3 : ((reg + (vvvvv <<< 7)) &&& 7#32).toNat = (((reg + (vvvvv <<< 7)) &&& 7#32).truncate 3 : BitVec 3).toNat := by
@@ -196,7 +206,7 @@ theorem vex2G_parsed (rule : Rule) (opcode reg vvvvv xb : BitVec 32) (pfx : List
     (freg : bits mb 3 3 = ((reg + (vvvvv <<< 7)) &&& 7#32).toNat) :
     ∃ p, parse true rule (pfx ++ ([0xC5#8, (vex2Byte (vexPrep (xR opcode 0#32 reg vvvvv xb 0#32) opcode 0#32)).truncate 8, opcode.truncate 8] ++
             (mb :: (sib.toList ++ ds)) ++ imm)) = .ok p ∧
-      VexParsedM rule p mb pfx ∧
+      VexParsedM rule p mb pfx 0 false ∧
       regNum p.R' p.R (bits mb 3 3) = reg.toNat ∧
       regNum p.V' false p.vvvv = vvvvv.toNat ∧
       MemFields p pfx mb sib ds (xb.getLsbD 3) (xb.getLsbD 4) ∧
@@ -220,7 +230,7 @@ theorem vex2G_parsed (rule : Rule) (opcode reg vvvvv xb : BitVec 32) (pfx : List
   simp only [List.append_assoc] at hparse
   refine ⟨_, hparse, ?P, ?hreg, ?hvv, ?hF, rfl, rfl⟩
   case P =>
-    refine ⟨Or.inl rfl, rfl, rfl, rfl, hmodne, ?_, ?_, ?_, ?_, ?_, ?_, by simp⟩
+    refine ⟨Or.inl rfl, rfl, rfl, rfl, hmodne, ?_, ?_, ?_, ?_, ?_, ?_, by simp, ?_⟩
     · show (opcode.truncate 8 : BitVec 8).toNat = rule.opcode
       rw [hop]; exact toNat_eq_of_zext _ _ (by omega) (by bv_decide)
     · show 1 = rule.map
@@ -241,6 +251,7 @@ theorem vex2G_parsed (rule : Rule) (opcode reg vvvvv xb : BitVec 32) (pfx : List
       show bits _ 2 1 ≤ 1
       have := (BitVec.extractLsb' 2 1 b1).isLt
       simp only [bits]; omega
+    · intro _; exact ⟨rfl, rfl⟩
   case hreg =>
     rw [freg]
     have e3' : ((reg + (vvvvv <<< 7)) &&& 7#32).toNat = (((reg + (vvvvv <<< 7)) &&& 7#32).truncate 3 : BitVec 3).toNat := by
